@@ -253,8 +253,16 @@ def _cs_point(pt, seed):
 
 
 def _cs_replay(case, seed):
-    return core.result(_cs_case(seed, case["dft"], case["n"], case["start"], case["shift"],
-                                case["copy"], case["dtype"]))
+    shift = case["shift"]
+    if case.get("shift_type") in ("int32", "int64"):
+        shift = getattr(np, case["shift_type"])(shift)
+    v = _cs_case(seed, case["dft"], case["n"], case["start"], shift, case["copy"], case["dtype"])
+    for x in v:
+        if case.get("large_dft"):
+            x["tags"]["large_dft"] = True
+        if case.get("shift_type"):
+            x["tags"]["shift_type"] = case["shift_type"]
+    return core.result(v)
 
 
 # ---------------------------------------------------------------- gauss_quant
@@ -454,12 +462,18 @@ def _cs_large_point(pt, seed):
     start = D - n
     viol = []
     evals = 0
-    for shift in (-1, 1, D // 2 + 1, D - 1, D + 1, 3 * D + 7, -(2 * D + 5)):
+    shifts = [-1, 1, D // 2 + 1, D - 1, D + 1, 3 * D + 7, -(2 * D + 5)]
+    # the same shifts as numpy integers (fixed-width arithmetic) where they fit
+    shifts += [np.int32(D - 1), np.int64(3 * D + 7), np.int32(-1)]
+    for shift in shifts:
         for copy in (True, False):
             evals += 1
             v = _cs_case(seed, None if none else D, n, start, shift, copy, "complex128")
             for x in v:
                 x["tags"]["large_dft"] = True
+                x["tags"]["shift_type"] = type(shift).__name__
+                x["case"]["shift_type"] = type(shift).__name__
+                x["case"]["large_dft"] = True
             viol.extend(v)
             if len(viol) > 4:
                 break
